@@ -188,3 +188,57 @@ def check_cross(ck: Checker, scn, cw, m, tag, prop="C09"):
             except Exception as e:  # noqa
                 ck.d(False, prop, "C09_ScfSumsToOne", f"{tag}: squared_covariance_fraction raised {type(e).__name__}: {str(e)[:120]}")
     return best
+
+
+def check_regression(ck: Checker, scn, cw, m, tag):
+    """Beyond the listed properties (SPEC-NOTE clauses, DESIGN 14.4): the regression content of a CPCCA-family
+    analysis as XWorldCross predicts it - fractions of variance per mode and predict().  Only on full-column-rank
+    fields (the un-whitening of a null direction is not determined) and for modes whose singular value is not tied."""
+    cfg, pred = scn["cfg"], scn["pred"]
+    k = pred["k"]
+    if not (cw.px == len(cfg["sx"]) and cw.py == len(cfg["sy"])):
+        return
+    good = [i for i in range(k) if not pred["tie"][i]]
+    if not good:
+        return
+    for name, num, den in (("fraction_variance_X_explained_by_X", "fvexx", "fvexxDen"), ("fraction_variance_Y_explained_by_Y", "fveyy", "fveyyDen"),
+                           ("fraction_variance_Y_explained_by_X", "fveyx", "fveyxDen")):
+        if pred[den] == 0:
+            continue
+        try:
+            got = np.asarray(getattr(m, name)().values, float)
+        except Exception as e:  # noqa
+            ck.x(False, "XC_FractionsOfVariance", f"{tag}: {name}() raised {type(e).__name__}: {str(e)[:120]}")
+            continue
+        exp = np.array(pred[num], float) / pred[den]
+        ck.x(all(abs(got[i] - exp[i]) <= 1e-7 for i in good), "XC_FractionsOfVariance",
+             f"{tag}: {name} {np.round(got, 8).tolist()} differs from the world's {np.round(exp, 8).tolist()} (modes {good})")
+    # predict(training X) is the orthogonal projection of the Y score series on the X score series: c * (Y scores' length)
+    try:
+        P = m.predict(cw.X())
+        s2 = m.data["scores2"]
+        Pv = np.asarray(P.transpose(m.sample_name if m.sample_name in P.dims else "time", "mode").values)
+        Sv = np.asarray(s2.transpose(m.sample_name, "mode").values)
+        pn, sn = (np.abs(Pv) ** 2).sum(0), (np.abs(Sv) ** 2).sum(0)
+        c2 = (np.array(pred["c5"], float) / 5.0) ** 2
+        ok = all(abs(pn[i] - c2[i] * sn[i]) <= 1e-7 * max(sn[i], 1e-300) for i in good)
+        ck.x(ok, "XC_PredictIsProjection", f"{tag}: |predict(training X)|^2 {pn.tolist()} is not c^2 |Y scores|^2 = {(c2 * sn).tolist()} (modes {good})")
+        # and it is the projection itself: the residual is orthogonal to the X scores
+        s1 = np.asarray(m.data["scores1"].transpose(m.sample_name, "mode").values)
+        R = Sv - Pv
+        orth = np.abs(np.einsum("ti,ti->i", s1.conj(), R))
+        ck.x(all(orth[i] <= 1e-7 * max(np.sqrt(sn[i] * (np.abs(s1[:, i]) ** 2).sum()), 1e-300) for i in good), "XC_PredictIsProjection",
+             f"{tag}: the residual of predict(training X) is not orthogonal to the X score series")
+        # the prediction mapped back to physical space carries exactly the X-explainable variance of the retained modes
+        if pred["fveyxDen"] > 0 and not any(pred["tie"][:k]):
+            Yh = m.inverse_transform(Y=P)
+            Yh = Yh[0] if isinstance(Yh, (list, tuple)) else Yh
+            Yv = np.asarray(Yh.transpose("time", ...).values)
+            Y0 = np.asarray(cw.Y().transpose("time", ...).values)
+            A = Yv - Y0.mean(0)
+            got = float((np.abs(A) ** 2).sum())
+            exp = sum(pred["fveyx"]) / 25.0 * cw.cy ** 2
+            ck.x(abs(got - exp) <= 1e-6 * max(exp, 1e-300), "XC_PredictedFieldVariance",
+                 f"{tag}: |inverse_transform(Y=predict(X)) - mean|^2 = {got:.9g}, the world says sum c^2 sy^2 = {exp:.9g}")
+    except Exception as e:  # noqa
+        ck.x(False, "XC_PredictIsProjection", f"{tag}: predict / inverse_transform of the prediction raised {type(e).__name__}: {str(e)[:160]}")
